@@ -74,16 +74,19 @@ def has_real_servers(nd):
 def snapshot(Q, t, evnode, evtype):
     nodes = {}
     for nd in Q.transitive_nodes:
-        inds = []
+        plist = {}
         for pl, lst in enumerate(nd.individuals):
-            for i in lst:
-                st = ind_state(i); st['plist'] = pl
-                inds.append(st)
+            for i in lst: plist[id(i)] = pl
+        inds = []
+        for i in nd.all_individuals:       # the public view of the node's customers
+            st = ind_state(i); st['plist'] = plist.get(id(i))
+            inds.append(st)
+        qids = [i.id_number for lst in nd.individuals for i in lst]
         servers = None
         if has_real_servers(nd):
             servers = [dict(id=s.id_number, busy=s.busy, cust=(s.cust.id_number if s.cust not in (False, None) else None), off=s.offduty)
                        for s in nd.servers]
-        nodes[nd.id_number] = dict(inds=inds, servers=servers, c=nd.c, n=nd.number_of_individuals, nis=nd.number_in_service,
+        nodes[nd.id_number] = dict(inds=inds, qids=qids, servers=servers, c=nd.c, n=nd.number_of_individuals, nis=nd.number_in_service,
                                    bq=list(nd.blocked_queue), lbq=nd.len_blocked_queue, cap=nd.node_capacity, ned=nd.next_event_date,
                                    net=nd.next_event_type, nintr=nd.number_interrupted_individuals,
                                    intr=[i.id_number for i in nd.interrupted_individuals])
